@@ -25,8 +25,15 @@ let gen_len () =
 let loose = ref false
 
 let gen_bytes_n n = List.init n (fun _ -> byte_tab.(pick 256))
-let gen_bytes () = gen_bytes_n (gen_len ())
-let gen_nonempty () = let n = gen_len () in gen_bytes_n (if n = 0 then 1 + pick 5 else n)
+(* strings software likes to treat specially *)
+let magic = ["$share/"; "$share/g"; "$share/g/t"; "$share"; "$SYS/x"; "MQTT"; "MQIsdp"; "mqtt"; "%u"; "%c"; "a/%u/%c";
+             "\xef\xbb\xbf"; "\xef\xbb\xbfbob"; "+"; "#"; "a/+/b"; "a/#"; "/"; "//"; "a/"; "\x00"; "\xc3\xa9";
+             "\xef\xbf\xbd"; "sensor/\xef\xbf\xbd/temp"; "\xed\xa0\x80"; "\xf0\x9f\x98\x80"; "\xff\xfe"; "null"; " "; "a b"]
+let of_string s = List.init (String.length s) (fun i -> byte_tab.(Char.code s.[i]))
+let gen_bytes () = if chance 8 then of_string (pick_l magic) else gen_bytes_n (gen_len ())
+let gen_nonempty () =
+  if chance 8 then of_string (pick_l magic) else
+  let n = gen_len () in gen_bytes_n (if n = 0 then 1 + pick 5 else n)
 
 let gen_num bits =
   match pick 6 with
